@@ -274,6 +274,23 @@ theorem save_commit_inv {s : St} (t : Name) (r0 r : Rcd) (deps : List Path) (val
           exact savedState_eq hr0 hcur (any_false_of hcr' hp)
         · simp only [hk, if_false]; exact ag k
 
+theorem commit_ign_inv {s : St} (t : Name) (r : Rcd) (e : Exec) (b : Bool) (h : Inv (commit s t r e)) :
+    Inv (commit s t { r with ign := b } e) := by
+  obtain ⟨clk, st, saw, ag⟩ := h
+  refine ⟨clk, ?_, saw, ?_⟩
+  · intro k
+    have := st k
+    simp only [commit] at this ⊢
+    by_cases hk : k = t
+    · simp only [hk, if_true] at this ⊢; exact this
+    · simp only [hk, if_false] at this ⊢; exact this
+  · intro k
+    have := ag k
+    simp only [commit] at this ⊢
+    by_cases hk : k = t
+    · simp only [hk, if_true] at this ⊢; exact this
+    · simp only [hk, if_false] at this ⊢; exact this
+
 theorem peek_inv {s : St} (t : Name) (h : Inv s) : Inv (peek s t) := by
   unfold peek
   split
@@ -342,7 +359,11 @@ theorem step_inv {s : St} (op : Op) (hop : op.faithful = true) (h : Inv s) : Inv
     | unmet t => exact erase_inv t h
     | forget t => exact erase_inv t h
     | ignore t => exact ignore_inv t h
-    | resetDep t => exact resetDep_inv t h
+    | resetDep t =>
+      simp only [resetDepKeep]
+      split
+      · exact ignore_inv t (resetDep_inv t h)
+      · exact resetDep_inv t h
     | peek t =>
       simp only
       split
@@ -352,10 +373,12 @@ theorem step_inv {s : St} (op : Op) (hop : op.faithful = true) (h : Inv s) : Inv
     | info t =>
       simp only [info]
       split
-      · exact crashed_inv h
+      · exact h
       · split
-        · exact erase_inv t h
-        · exact h
+        · exact crashed_inv h
+        · split
+          · exact erase_inv t h
+          · exact h
 
 theorem foldl_inv (ops : List Op) (hf : Faithful ops = true) (s : St) (h : Inv s) :
     Inv (ops.foldl (step true) s) := by
